@@ -1099,3 +1099,35 @@ pub fn let_position_cases(sigil: Option<&'static str>) -> Vec<Case> {
     }
     out
 }
+
+// ---------------------------------------------------------------------------
+// ONE-BEFORE-NAME: a constant / parameter / call whose ONLY mention follows the literal 1 (or 2) in an argument
+// list: the tail (1 K X) of (+ 1 K X) reads like the quote form (q K X).
+
+pub fn literal_one_cases(sigil: Option<&'static str>) -> Vec<Case> {
+    let mut out = vec![];
+    let params = Pat::list(vec![Pat::n("A"), Pat::n("B")]);
+    let args = vec![T::list(&[T::int(10), T::int(3)]), T::list(&[T::int(-4), T::int(0)])];
+    for lit in [1i64, 2] {
+        for computed in [false, true] {
+            let k = if computed { Helper::Const { name: "K".into(), body: E::prim("+", vec![E::int(3), E::int(4)]) } } else { Helper::Constant { name: "K".into(), datum: T::int(7) } };
+            let forms: Vec<(&str, E)> = vec![
+                ("plus", E::prim("+", vec![E::int(lit), E::v("K"), E::v("X")])),
+                ("list", E::List(vec![E::int(lit), E::v("K"), E::v("X")])),
+                ("times", E::prim("*", vec![E::int(lit), E::v("K"), E::v("X")])),
+                ("nested", E::prim("+", vec![E::int(lit), E::prim("-", vec![E::v("K"), E::v("X")])])),
+                ("cons", E::prim("c", vec![E::int(lit), E::v("K")])),
+            ];
+            for (fname, f) in forms {
+                for place in ["defun", "inline", "main"] {
+                    let (helpers, body) = match place {
+                        "main" => (vec![k.clone()], subst(&f, &["X".to_string()], &[E::v("A")])),
+                        _ => (vec![k.clone(), Helper::Fun { name: "HF".into(), inline: place == "inline", params: Pat::list(vec![Pat::n("X")]), body: f.clone() }], E::call("HF", vec![E::v("A")])),
+                    };
+                    out.push(Case { prog: Prog { sigil, params: params.clone(), helpers, body }, args: args.clone(), tags: vec![format!("one-before-name/{}", place), format!("lit{}-{}-{}", lit, fname, if computed { "defconst" } else { "defconstant" })] });
+                }
+            }
+        }
+    }
+    out
+}
